@@ -172,43 +172,42 @@ def _ctor_param_stored_as(p, cname, attr, depth=0):
 
 def check_item_length_reaches_the_item(p, r):
     """R5: the belt store reads `item.length` for the admission spacing and for the entering phase of the travel; the Source promises that it is its
-    `item_length`.  For every flow item the Source creates: `X.length = self.item_length` follows the creation, or the constructor argument that
-    receives `self.item_length` is the parameter the class (chain) stores in `self.length`."""
+    `item_length`.  Path rule on the Source process (helpers inlined): every flow item created on a path (`Item(...)` / `Pallet(...)`) is, later on
+    that path, assigned `length = self.item_length` - or the constructor argument that receives `self.item_length` is the parameter the class chain
+    stores in `self.length`."""
+    from .. import nodewalk
     r.rule('C12.R5', 'every flow item a Source creates carries length = the Source\'s item_length', 2)
-    ci = next((c for c in tables.node_classes(p) if c.name == 'Source'), None)
-    if ci is None:
+    w = next((x for x in nodewalk.walks(p) if x.ci.name == 'Source'), None)
+    if w is None:
         raise AnalysisError('anchor vanished: Source')
-    raw = p.raw()
-    n_sites = 0
-    for rel, m in raw.modules.items():
-        for cls in [c for c in ast.walk(m.tree) if isinstance(c, ast.ClassDef) and c.name == 'Source']:
-            for fn in [f for f in cls.body if isinstance(f, ast.FunctionDef)]:
-                for blk in [b for n in ast.walk(fn) for b in (getattr(n, 'body', None), getattr(n, 'orelse', None)) if isinstance(b, list)]:
-                    for i, st in enumerate(blk):
-                        if not (isinstance(st, ast.Assign) and isinstance(st.value, ast.Call) and isinstance(st.value.func, ast.Name)
-                                and st.value.func.id in ('Item', 'Pallet') and isinstance(st.targets[0], ast.Name)):
-                            continue
-                        n_sites += 1
-                        x = st.targets[0].id
-                        cname = st.value.func.id
-                        key = f'{rel}::Source.{fn.name}::item-length({cname})'
-                        later = any(isinstance(s2, ast.Assign) and isinstance(s2.targets[0], ast.Attribute) and isinstance(s2.targets[0].value, ast.Name)
-                                    and s2.targets[0].value.id == x and s2.targets[0].attr == 'length' and ast.unparse(s2.value) == 'self.item_length' for s2 in blk[i + 1:])
-                        via_ctor = False
-                        got = _ctor_param_stored_as(p, cname, 'length')
-                        if got is not None:
-                            idx, pname = got
-                            c = st.value
-                            actual = c.args[idx] if idx < len(c.args) else next((k.value for k in c.keywords if k.arg == pname), None)
-                            via_ctor = actual is not None and ast.unparse(actual) == 'self.item_length'
-                        if later or via_ctor:
-                            r.ok('C12.R5', key, 'assigned after creation' if later else f'constructor parameter `{got[1]}` is stored as self.length', src(rel), st.lineno)
-                        else:
-                            r.fail('C12.R5', key, f'the {cname} created here never receives the Source\'s item_length as its `length` (the value handed to the constructor '
-                                                  f'is not stored by the class chain, and nothing assigns it afterwards): the belt spaces and times it as an item of '
-                                                  f'the default length', src(rel), st.lineno)
-    if n_sites < 2:
-        raise AnalysisError(f'C12.R5: only {n_sites} flow-item creation site(s) found in Source')
+    state = {}
+    for root, ps in w.roots.items():
+        for pa in ps:
+            if pa.raises:
+                continue
+            evs = pa.events
+            for i, e in enumerate(evs):
+                if e.kind == 'xcall' and e.name in ('Item', 'Pallet') and e.d.get('result') is not None:
+                    key = f'{w.root_funcs[root].key}::item-length({e.name})'
+                    later = any(x.kind == 'setattr' and x.attr == 'length' and x.d.get('obj_val') == e.result and x.value == ('self', 'item_length') for x in evs[i + 1:])
+                    via_ctor = False
+                    got = _ctor_param_stored_as(p, e.name, 'length')
+                    if got is not None:
+                        idx, pname = got
+                        args = e.args or ()
+                        via_ctor = idx < len(args) and args[idx] == ('self', 'item_length')
+                    rec = state.setdefault(key, [True, e, pa, ''])
+                    if not (later or via_ctor) and rec[0]:
+                        state[key] = [False, e, pa, '']
+    if len(state) < 2:
+        raise AnalysisError(f'C12.R5: only {len(state)} flow-item creation site(s) found on the paths of the Source process')
+    for key, (ok, e, pa, _) in sorted(state.items()):
+        if ok:
+            r.ok('C12.R5', key, 'length = self.item_length on every path that creates it', src(e.fi.module), e.line)
+        else:
+            r.fail('C12.R5', key, f'the {e.name} created here never receives the Source\'s item_length as its `length` on this path (the value handed to the '
+                                  f'constructor is not stored by the class chain, and nothing assigns it afterwards): the belt spaces and times it as an item of '
+                                  f'the default length', src(e.fi.module), e.line, pa.describe())
 
 
 def check_one_grant_per_sweep(p, r):
